@@ -260,6 +260,13 @@ func c14Render(s *c14Scn, encName string, rnd *rand.Rand) *c14Body {
 					for i := range payload {
 						payload[i] = byte(rnd.IntN(256))
 					}
+					if looked && realEnc && rnd.IntN(3) == 0 {
+						// another way of being undecodable: a valid stream of a long text whose tail is missing - the
+						// decoder hands out a good part of the text before it fails (nothing of it may show up later)
+						if full, err := c14Compress(compEnc, c14PlainBytes(150000, rnd.IntN(97))); err == nil && len(full) > 16+e.Len {
+							payload = append([]byte(nil), full[:len(full)-7]...)
+						}
+					}
 				default: // plain
 					n := 0
 					for c := 0; c < e.Len; c++ {
